@@ -645,7 +645,7 @@ pub fn run() {
     c.assume("gate-matrix simulator O3, diagram evaluator O2 and exact ring O1 are correct (self-tested at start)");
     c.assume("hidden-shift promise is checked on the full exact output state U|0..0> (2^n amplitudes), n in {6,8,10,12}");
     c.assume("a 1-qubit Circuit::random request without two-qubit gate probability is treated as admissible");
-    let n = t.pick(2000usize, 250_000usize);
+    let n = t.pick(6000usize, 250_000usize);
     par_cases("random-circuit", n, |r, i| check_random_circuit("random-circuit", i, r, false));
     par_cases("random-circuit-one-qubit", t.pick(20, 500), |r, i| check_random_circuit("random-circuit-one-qubit", i, r, true));
     par_cases("hidden-shift", n, |r, i| check_hidden_shift("hidden-shift", i, r, &[6, 8, 10, 12]));
